@@ -548,6 +548,7 @@ def judge(c, ans):
         pre = 'dhf.%s.' % op
         st(pre + 'cases')
         st(pre + 'openssl_allocations_counted', n)
+        st(pre + 'triples_with_N=%d' % n)
         st(pre + 'fault_runs', runs)
         st(pre + 'fault_points_fired', fired)
         st(pre + 'fault_not_reached', notreached)
@@ -710,11 +711,29 @@ def run(ctx):
         'rounds on the same object, HMAC keys 0..2000 bytes (both sides of 64); (b) AES keys 128/256 (random + FIPS vectors + '
         'constant keys) expand/encrypt/free; AES-CTR object scripts (init | alloc+init2, stream lengths around 16-byte '
         'boundaries, init2 re-use with same/other/NULL key, free); DH generate_pub/compute/generate with random and extreme '
-        'x and r (0, 2^256-1, short, long carry chains), entropy failures; key files failing after the secret line (duplicate '
+        'x and r (0, 2^256-1, short, long carry chains), entropy failures; (c) DH fault enumeration: for every (x, r, peer) '
+        'triple of group dhf (ops G=generate_pub, C=compute, D=generate in rotation, same value classes as above) the driver '
+        'warms OpenSSL up (one clean and one failing run), counts the N allocations OpenSSL requests through '
+        'CRYPTO_set_mem_functions in a clean run, then runs the operation once per k = 1..N with exactly the k-th request '
+        'refused (NULL), free-time scan active, error queue cleared after each run, and counts again; every refused run must '
+        'return -1 (0 if OpenSSL copes) and release no block holding an image of x, x+2^258, r, r+2^256, (x+2^258)-(r+2^256); '
+        'counters dhf.<op>.* per build give cases, N summed, fault runs, fault points that fired, returns; key files failing after the secret line (duplicate '
         'secret, unknown line, no "=", empty line, missing id, duplicate id, no EOL, failed strdup of the id). '
         'non-trivial: ctx - every case; AES/CTR - the live object held the searched bytes just before free; DH/aws - at least '
-        'one searchable window and one block freed. distinct = distinct (kind, length classes, script shape) signatures; the '
+        'one searchable window and one block freed; dhf - additionally at least one fault point fired (signature includes N). distinct = distinct (kind, length classes, script shape) signatures; the '
         'same inputs are replayed on every build.')
+    ctx.cov['dh_fault_enumeration'] = {
+        b: {op: {'triples': d.get('dhf.%s.cases' % op, 0),
+                 'openssl_allocations_counted': d.get('dhf.%s.openssl_allocations_counted' % op, 0),
+                 'fault_runs': d.get('dhf.%s.fault_runs' % op, 0),
+                 'fault_points_fired': d.get('dhf.%s.fault_points_fired' % op, 0),
+                 'not_reached': d.get('dhf.%s.fault_not_reached' % op, 0),
+                 'returned_-1': d.get('dhf.%s.returned_-1' % op, 0),
+                 'absorbed_returned_0': d.get('dhf.%s.absorbed_returned_0' % op, 0),
+                 'triples_by_N': {k.split('=')[1]: v for k, v in sorted(d.items())
+                                  if k.startswith('dhf.%s.triples_with_N=' % op)}}
+            for op in ('G', 'C', 'D')}
+        for b, d in sorted(per.items()) if not b.endswith('-soft')}
     ctx.cov['builds_run'] = ['%s: gcc %s%s' % (bname(c, u), ' '.join(core.CFG_FLAGS[c]),
                                              '' if u == 'aesni' else ' (without CPUSUPPORT_X86_AESNI)')
                              for c, u in which]
@@ -725,6 +744,10 @@ def run(ctx):
         'of aws_readkeys and blinding[] in blinded_modexp are stack arrays, and libc\'s stdio buffer of the key file is '
         'freed inside libc - none of them is claimed',
         'windows with fewer than 8 (text: 4) distinct byte values are not searched (they would match wiped memory)',
+        'DH fault enumeration: one refused allocation per run (no double faults); the fault points are the allocations the '
+        'installed OpenSSL makes for these inputs (N is counted per triple, histogram in dh_fault_enumeration), '
+        'failures of OpenSSL operations that are not allocation failures are not injected; a refused realloc leaves the old '
+        'block with OpenSSL; only the -aesni builds run the DH groups (crypto_dh.c does not depend on the AES variant)',
         'AES-CTR: a stream object caches a keystream block only after a partial block on the AES-NI path; '
         'ctr.objects_caching_known_keystream_at_free counts the objects for which the wipe was actually decidable',
     ]
